@@ -13,7 +13,7 @@ RULE = (
     "reader task: HeartBtInt hb in [1, 120] s; phase of the last inbound frame relative to the 1 s watchdog tick in [0, 1); "
     "peer script in {silent from t0; periodic traffic with period 0.3/0.6/0.9/1.1/1.7 x hb (valid Heartbeats or application "
     "messages); burst then silence; answers every TestRequest after a delay in [0, 2.2 hb] with the right / a wrong / a "
-    "numerically lower / non-numeric / no TestReqID / (from the second TestRequest on) the id of the previous TestRequest, optionally sending an application message while its answer is under way or with one of its frames lost right before the answer; answers the first 1-3 TestRequests and is dead from then on; sends its own TestRequests "
+    "numerically lower / non-numeric / no TestReqID / (from the second TestRequest on) the id of the previous TestRequest, optionally sending an application message while its answer is under way or with one of its frames lost right before the answer; answers the first 1-3 TestRequests and is dead from then on; is live while the wall clock steps forward by 2.5-20 intervals (outcome FREE, counted); sends its own TestRequests "
     "(ids text, numbers, '0', '00', base64-like with '=' inside; optionally every second one preceded by a lost frame); reveals a gap and replays it slowly but steadily (one PossDup message every 0.3-0.8 hb)}; the scripted "
     "peer answers the endpoint's ResendRequests with a GapFill; the scenario runs on the first or on the second connection of the same object, optionally after the peer sent a ResendRequest (valid, beyond what was sent, or inverted) earlier in the session; optional own outbound application traffic. Oracle (tolerances: "
     "tick 1 s, TestReqID truncation 1 s): silent peer -> TestRequest within (hb-1, hb+1] s of the last inbound frame, "
@@ -26,7 +26,7 @@ RULE = (
 )
 ASSUMPTIONS = [
     "virtual clock replaces time.time() in asyncfix.connection and the event-loop clock; horizon = 8 hb + 10 s",
-    "FREE: answers later than 2 hb - 2 s; a Heartbeat without TestReqID while a TestRequest is outstanding; peers that send traffic but ignore TestRequests; the window between 2 hb - 1 s after the TestRequest and 3 hb + 3 s",
+    "FREE: what happens after a step of the wall clock; answers later than 2 hb - 2 s; a Heartbeat without TestReqID while a TestRequest is outstanding; peers that send traffic but ignore TestRequests; the window between 2 hb - 1 s after the TestRequest and 3 hb + 3 s",
 ]
 
 
@@ -97,6 +97,8 @@ def run_scenario(acc, sc):
                         state["t_last_answer"] = loop.time()
                         feed("0", [(112, tid)])
                     loop.call_later(script[1] * hb, ans)
+            if kind == "clock-step":
+                loop.call_later(0.05, lambda tid=tid: feed("0", [(112, tid)]))
             if kind == "answer":
                 delay_f, idkind = script[1], script[2]
                 d = delay_f * hb
@@ -151,6 +153,19 @@ def run_scenario(acc, sc):
             while k * p < horizon:
                 loop.call_later(k * p, lambda: feed(mt, [(11, "tick")] if mt == "D" else []))
                 k += 1
+        elif kind == "clock-step":
+            # a live peer (traffic every pf*hb, TestRequests answered at once); at t0 + 2.3 hb the wall clock jumps forward by
+            # `jump` intervals (NTP step, VM / laptop resume) while the loop's monotonic time runs on
+            _, pf, jump = script
+            p = max(pf * hb, 0.05)
+            k = 1
+            while k * p < horizon:
+                loop.call_later(k * p, lambda: feed("0"))
+                k += 1
+
+            def step():
+                loop.wall_offset = getattr(loop, "wall_offset", 0.0) + jump * hb
+            loop.call_later(2.3 * hb, step)
         elif kind == "burst":
             _, n, over = script
             for i in range(n):
@@ -287,6 +302,11 @@ def run_scenario(acc, sc):
                             bad("silent/disconnect-too-late/after-an-answered-one", f"disconnected {t_disc - t_last:.2f} s after the last inbound frame (> 3 hb + 3)")
                         if t_disc - later[0] < 2 * hb - 1 - eps:
                             bad("silent/disconnect-too-early", f"disconnected {t_disc - later[0]:.2f} s after the TestRequest (< 2 hb - 1)")
+        elif kind == "clock-step":
+            # FREE: the statement quantifies over arrival patterns on a consistent clock; what a watchdog that measures with
+            # the wall clock does when that clock is stepped is not fixed by it (counted only)
+            if t_disc is not None:
+                acc.klass("disconnected-after-clock-step-FREE")
         elif kind == "slow-replay":
             until = state["replay_until"]
             gap_frames = script[2] * hb
@@ -331,6 +351,7 @@ script = st.one_of(
     st.tuples(st.just("slow-replay"), st.integers(3, 8), st.sampled_from([0.3, 0.5, 0.8])),
     st.tuples(st.just("answer"), st.sampled_from([0.0, 0.1, 0.3]), st.just("previous")),
     st.tuples(st.just("answer-then-die"), st.sampled_from([0.0, 0.1, 0.3]), st.integers(1, 3)),
+    st.tuples(st.just("clock-step"), st.sampled_from([0.3, 0.6]), st.sampled_from([2.5, 4, 20])),
 )
 scenario = st.fixed_dictionaries({"role": st.sampled_from(["acceptor", "initiator"]), "hb": hbs, "phase": st.floats(0, 0.999), "script": script,
                                   "own_traffic": st.sampled_from([False, False, False, True]), "second": st.sampled_from([False, False, True]),
@@ -348,7 +369,7 @@ def grid(acc, role):
             for sc in ([("silent",)] + [("periodic", f, "0") for f in (0.3, 0.9, 1.1)] + [("answer", d, k) for d in (0.0, 0.9, 1.9) for k in ("right", "wrong", "wrong-low", "missing", "wrong-latin1", "wrong-twice")]
                        + [("peer-testreq", 0.6)] + [("burst", 3, 1.0)] + [("answer", 1.5, "right", 0.3), ("answer", 1.9, "right", 0.6)]
                        + [("answer", 0.5, "right", None, True), ("peer-testreq", 0.6, True), ("slow-replay", 6, 0.5)]
-                       + [("answer", 0.1, "previous"), ("answer-then-die", 0.0, 1), ("answer-then-die", 0.1, 2)]):
+                       + [("answer", 0.1, "previous"), ("answer-then-die", 0.0, 1), ("answer-then-die", 0.1, 2), ("clock-step", 0.3, 4)]):
                 run_scenario(acc, {"role": role, "hb": hb, "phase": phase, "script": sc, "own_traffic": False})
             for sc in [("silent",), ("answer", 0.9, "right"), ("periodic", 0.3, "0")]:
                 run_scenario(acc, {"role": role, "hb": hb, "phase": phase, "script": sc, "own_traffic": False, "second": True})
